@@ -1,6 +1,7 @@
 (* C06 - what the model says is what the printed text says.
-   The re-parse itself needs the real lexer and LALR engine (an oracle): that half is decided on every run
-   by the monitor (print, re-parse with the real parser, field-by-field comparison after every edit).
+   The re-parse itself needs the real LALR engine and lark's contextual choice of terminal (an oracle): that
+   half is decided on every run by the monitor (print, re-parse with the real parser, field-by-field
+   comparison after every edit).
    Proved here:
    (a) for every generated class (re-extracted from the source on this run): the formatted layout enumerates
        the declared fields exactly once in declaration order, and every pivot that places an optional child
@@ -9,8 +10,20 @@
        contains a visible separator token whenever the field's separators are visible (", ", "\n", " "), then
        the same holds after every deletion, insertion (any number of values, any position, all three separator
        branches of _insert_tokens) and replacement - this is what rules out `AAA, , BBBEUR` / `BBBUSD`;
-       fields declared with separators=() demand nothing (C06_sep_tight).
-   C06_partial: the statement "the printed text re-parses to the same model" is not a theorem (oracle). *)
+       fields declared with separators=() demand nothing (C06_sep_tight);
+   (c) why separation is enough for the lexer (TokensStable.v, about the recognisers lexr_K of Tokens.v, which
+       harness/c12.py compares with lark / CPython re on every run, also on "lexeme + following text"):
+       C06_extent_stable_<K>: a complete lexeme of terminal K followed by a text r is recognised with exactly
+       the same extent whenever boundary_K r holds - a condition on the first character(s) of r, the weakest
+       one (C06_boundary_weakest_<K>: when it fails some complete lexeme is lexed differently before r);
+       C06_blank_is_boundary: a blank (space, tab, CR, LF), the end of the text and ", " satisfy boundary_K of
+       every value terminal (a comment ends at the line end only);
+       C06_separated_relex: lexemes printed with such gaps in between are scanned back, with the recognisers of
+       the expected kinds, into exactly these lexemes (C06_tight_is_not_relexed: "USD" "EUR" printed tight are not).
+   Remains oracle (C06_partial): which terminal lark tries at a position (LALR state, terminal priorities,
+   longest match among several terminals - e.g. TRUEX is a CURRENCY although BOOL stops after TRUE), the
+   %ignore'd terminals between tokens, and the tree construction; so "the printed text re-parses to the same
+   model" is not a theorem. *)
 From AB Require Import Desc Generated GeneratedWf DescProofs Repeated RepeatedLayout RepeatedCells RepeatedSep.
 
 Theorem C06_generated_classes_wf : forall c, In c classes -> wf_desc c = true.
@@ -36,3 +49,114 @@ Proof. exact Sep_set. Qed.
 
 Theorem C06_sep_tight : forall cs, Sep [] [] cs.
 Proof. exact Sep_tight. Qed.
+
+(* ---- (c) lexical stability: separation is enough for the recognisers ---- *)
+From Coq Require Import ZArith List.
+From AB Require Tokens TokensStable.
+
+Theorem C06_extent_stable_string : forall s r,
+  Tokens.lexr_string s = Some nil -> TokensStable.boundary_string r = true -> Tokens.lexr_string (s ++ r)%list = Some r.
+Proof. exact TokensStable.extent_stable_string. Qed.
+Theorem C06_extent_stable_inline : forall s r,
+  Tokens.lexr_inline s = Some nil -> TokensStable.boundary_inline r = true -> Tokens.lexr_inline (s ++ r)%list = Some r.
+Proof. exact TokensStable.extent_stable_inline. Qed.
+Theorem C06_extent_stable_newline : forall s r,
+  Tokens.lexr_newline s = Some nil -> TokensStable.boundary_newline r = true -> Tokens.lexr_newline (s ++ r)%list = Some r.
+Proof. exact TokensStable.extent_stable_newline. Qed.
+Theorem C06_extent_stable_ws : forall s r,
+  Tokens.lexr_ws1 s = Some nil -> TokensStable.boundary_ws r = true -> Tokens.lexr_ws1 (s ++ r)%list = Some r.
+Proof. exact TokensStable.extent_stable_ws. Qed.
+Theorem C06_extent_stable_block : forall s r,
+  Tokens.lexr_block s = Some nil -> TokensStable.boundary_block (TokensStable.block_indented s) r = true ->
+  Tokens.lexr_block (s ++ r)%list = Some r.
+Proof. exact TokensStable.extent_stable_block. Qed.
+Theorem C06_extent_stable_date : forall s r,
+  Tokens.lexr_date s = Some nil -> TokensStable.boundary_date r = true -> Tokens.lexr_date (s ++ r)%list = Some r.
+Proof. exact TokensStable.extent_stable_date. Qed.
+Theorem C06_extent_stable_number : forall s r,
+  Tokens.lexr_number s = Some nil -> TokensStable.boundary_number r = true -> Tokens.lexr_number (s ++ r)%list = Some r.
+Proof. exact TokensStable.extent_stable_number. Qed.
+Theorem C06_extent_stable_tag : forall s r,
+  Tokens.lexr_tag s = Some nil -> TokensStable.boundary_tag r = true -> Tokens.lexr_tag (s ++ r)%list = Some r.
+Proof. exact TokensStable.extent_stable_tag. Qed.
+Theorem C06_extent_stable_link : forall s r,
+  Tokens.lexr_link s = Some nil -> TokensStable.boundary_link r = true -> Tokens.lexr_link (s ++ r)%list = Some r.
+Proof. exact TokensStable.extent_stable_link. Qed.
+Theorem C06_extent_stable_metakey : forall s r,
+  Tokens.lexr_metakey s = Some nil -> TokensStable.boundary_metakey r = true -> Tokens.lexr_metakey (s ++ r)%list = Some r.
+Proof. exact TokensStable.extent_stable_metakey. Qed.
+Theorem C06_extent_stable_bool : forall s r,
+  Tokens.lexr_bool s = Some nil -> TokensStable.boundary_bool r = true -> Tokens.lexr_bool (s ++ r)%list = Some r.
+Proof. exact TokensStable.extent_stable_bool. Qed.
+Theorem C06_extent_stable_null : forall s r,
+  Tokens.lexr_null s = Some nil -> TokensStable.boundary_null r = true -> Tokens.lexr_null (s ++ r)%list = Some r.
+Proof. exact TokensStable.extent_stable_null. Qed.
+Theorem C06_extent_stable_pflag : forall s r,
+  Tokens.lexr_pflag s = Some nil -> TokensStable.boundary_pflag r = true -> Tokens.lexr_pflag (s ++ r)%list = Some r.
+Proof. exact TokensStable.extent_stable_pflag. Qed.
+Theorem C06_extent_stable_txflag : forall s r,
+  Tokens.lexr_txflag s = Some nil -> TokensStable.boundary_txflag r = true -> Tokens.lexr_txflag (s ++ r)%list = Some r.
+Proof. exact TokensStable.extent_stable_txflag. Qed.
+Theorem C06_extent_stable_account : forall s r,
+  Tokens.lexr_account s = Some nil -> TokensStable.boundary_account r = true -> Tokens.lexr_account (s ++ r)%list = Some r.
+Proof. exact TokensStable.extent_stable_account. Qed.
+Theorem C06_extent_stable_currency : forall s r,
+  Tokens.lexr_currency s = Some nil -> TokensStable.boundary_currency r = true -> Tokens.lexr_currency (s ++ r)%list = Some r.
+Proof. exact TokensStable.extent_stable_currency. Qed.
+
+(* the boundaries are the weakest conditions on r alone *)
+Theorem C06_boundary_weakest_number : forall r, TokensStable.boundary_number r = false ->
+  exists s, Tokens.lexr_number s = Some nil /\ Tokens.lexr_number (s ++ r)%list <> Some r.
+Proof. exact TokensStable.boundary_number_weakest. Qed.
+Theorem C06_boundary_weakest_date : forall r, TokensStable.boundary_date r = false ->
+  exists s, Tokens.lexr_date s = Some nil /\ Tokens.lexr_date (s ++ r)%list <> Some r.
+Proof. exact TokensStable.boundary_date_weakest. Qed.
+Theorem C06_boundary_weakest_tag : forall r, TokensStable.boundary_tag r = false ->
+  exists s, Tokens.lexr_tag s = Some nil /\ Tokens.lexr_tag (s ++ r)%list <> Some r.
+Proof. exact TokensStable.boundary_tag_weakest. Qed.
+Theorem C06_boundary_weakest_link : forall r, TokensStable.boundary_link r = false ->
+  exists s, Tokens.lexr_link s = Some nil /\ Tokens.lexr_link (s ++ r)%list <> Some r.
+Proof. exact TokensStable.boundary_link_weakest. Qed.
+Theorem C06_boundary_weakest_account : forall r, TokensStable.boundary_account r = false ->
+  exists s, Tokens.lexr_account s = Some nil /\ Tokens.lexr_account (s ++ r)%list <> Some r.
+Proof. exact TokensStable.boundary_account_weakest. Qed.
+Theorem C06_boundary_weakest_currency : forall r, TokensStable.boundary_currency r = false ->
+  exists s, Tokens.lexr_currency s = Some nil /\ Tokens.lexr_currency (s ++ r)%list <> Some r.
+Proof. exact TokensStable.boundary_currency_weakest. Qed.
+Theorem C06_boundary_weakest_inline : forall r, TokensStable.boundary_inline r = false ->
+  exists s, Tokens.lexr_inline s = Some nil /\ Tokens.lexr_inline (s ++ r)%list <> Some r.
+Proof. exact TokensStable.boundary_inline_weakest. Qed.
+Theorem C06_boundary_weakest_ws : forall r, TokensStable.boundary_ws r = false ->
+  exists s, Tokens.lexr_ws1 s = Some nil /\ Tokens.lexr_ws1 (s ++ r)%list <> Some r.
+Proof. exact TokensStable.boundary_ws_weakest. Qed.
+
+(* sep_start r: r is empty, starts with a blank, or starts with ',' and a blank *)
+Theorem C06_blank_is_boundary : forall k r,
+  TokensStable.is_value_kind k = true -> TokensStable.sep_start r = true -> TokensStable.boundary_of k r = true.
+Proof. exact TokensStable.blank_is_boundary. Qed.
+Theorem C06_comment_ends_at_eol : forall r,
+  r = nil \/ TokensStable.starts_with Tokens.is_crnl r = true -> TokensStable.boundary_inline r = true.
+Proof. exact TokensStable.boundary_inline_eol. Qed.
+Theorem C06_block_comment_ends : forall ind,
+  TokensStable.boundary_block ind nil = true /\
+  (forall c t, Tokens.is_ws c = false -> (c =? Tokens.SEMI)%Z = false -> (c =? Prelude.CR)%Z = false ->
+               TokensStable.boundary_block ind (Prelude.NL :: c :: t) = true).
+Proof. exact TokensStable.boundary_block_ends. Qed.
+
+Theorem C06_separated_relex : forall items, TokensStable.items_ok items ->
+  TokensStable.scan (map (fun i => fst (fst i)) items) (TokensStable.print items) =
+  Some (map (fun i => snd (fst i)) items).
+Proof. exact TokensStable.separated_relex. Qed.
+
+(* non-vacuity: `Assets:A  1,234.50 USD, EUR ; c` + LF is such a printing, and is scanned back *)
+Example C06_separated_relex_example :
+  TokensStable.items_ok TokensStable.ex_items2 /\
+  TokensStable.scan (map (fun i => fst (fst i)) TokensStable.ex_items2) (TokensStable.print TokensStable.ex_items2) =
+  Some (map (fun i => snd (fst i)) TokensStable.ex_items2).
+Proof. exact TokensStable.ex_relex2_full. Qed.
+Example C06_extent_example_needs_sep :
+  Tokens.lexr_number (49 :: nil)%Z = Some nil /\ Tokens.lexr_number ((49 :: nil) ++ (44 :: 50 :: 51 :: 52 :: nil))%list%Z = Some nil.
+Proof. exact TokensStable.number_comma_needs_sep. Qed.
+Example C06_tight_is_not_relexed :
+  TokensStable.scan (TokensStable.KCurrency :: TokensStable.KCurrency :: nil) ((85 :: 83 :: 68 :: nil) ++ (69 :: 85 :: 82 :: nil))%list%Z = None.
+Proof. exact TokensStable.ex_tight_fails. Qed.
